@@ -932,6 +932,15 @@ impl Compiler {
 
             // Pop scope
             self.builder.emit(Op::PopScope);
+
+            // Entering the catch block re-armed a handler for the finally block, so that
+            // break / continue / return / throw inside the catch body still run it. When the
+            // catch body completes normally, control falls into the finally block below and
+            // that handler must not stay on the try stack: a later break, continue or return
+            // would jump into this finally block again.
+            if try_stmt.finalizer.is_some() {
+                self.builder.emit(Op::PopTry);
+            }
         }
 
         // Jump to finally (if exists) or end
